@@ -73,7 +73,13 @@ pub fn listed_candidates(tree: &TreeSpec, base: &Path) -> Vec<String> {
             let p = os_path(base, comps);
             match std::fs::symlink_metadata(&p) {
                 Ok(m) if m.file_type().is_symlink() => continue,
-                Ok(_) => c.push(s),
+                Ok(m) => {
+                    if m.is_dir() && k <= 2 {
+                        // the same place reached through `..`: a listed path without a final name
+                        c.push(format!("{}/..", s));
+                    }
+                    c.push(s)
+                }
                 Err(_) => {}
             }
         }
